@@ -81,6 +81,15 @@ def enumerate_plain(name, args_fn, u_values, max_depth):
 
 def run(ctx, rep):
     MR.build()
+    # the tables the theorems are instantiated with: read from the source AST; cross-checked against what two live
+    # GeneticAlgorithm instances (built with different sentinel arguments) actually hold
+    rep.extra["pool_tables_source"] = dict(TP.SOURCE)
+    try:
+        if TP.SOURCE["ga"] == "ast" and not TP.tables_agree(TP.ga_pools(C.SRC), TP.ga_pools_runtime()):
+            rep.problem("pools", "the pools a live GeneticAlgorithm instance holds differ from the dict literals read from the source "
+                        "(entries added / changed after the literal, or shared between instances)", {}, "pools:ast-vs-runtime", False)
+    except TP.TranslateError as e:
+        rep.problem("pools", f"pool tables cannot be read from a live instance: {e}", {}, "pools:runtime", False)
     f_cx = C.CoqCases(ctx.scratch, "crossover", IMPORTS, "chk_crossover", "nat * list row * list Q * list Q * list draw * row")
     f_bn = C.CoqCases(ctx.scratch, "binomial", IMPORTS, "chk_binomial", "row * row * Q * list draw * row")
     f_fl = C.CoqCases(ctx.scratch, "flipmut", IMPORTS, "chk_flip_mut", "row * Q * list draw * row")
